@@ -430,7 +430,7 @@ def _is_square(q: Fraction):
 def sqrt(a: Sym) -> Sym:
     if a.op == "const":
         if a.args[0] < 0:
-            raise SymDomainError("sqrt of negative constant")
+            return poison("sqrt of a negative constant")
         r = _is_square(a.args[0])
         if r is not None:
             return const(r)
@@ -507,7 +507,7 @@ def log(a: Sym) -> Sym:
     if a.op == "const":
         c = a.args[0]
         if c <= 0:
-            raise SymDomainError("log of non-positive constant")
+            return poison("log of a non-positive constant")  # numpy: -inf / nan with a warning; may be discarded by the caller
         if c == 1:
             return ZERO
         if c == 10:
